@@ -21,6 +21,7 @@ func init() {
 	reg("C16", "C16.R5", "E6", "the bucket window follows the wall clock only; out-of-window event times count in the newest bucket", 2, ruleWindowFollowsClock)
 	reg("C16", "C16.R6", "E6", "rule key prefixes are distinct: position for configured rules, their count for the default rule", 2, ruleRuleKeysDistinct)
 	reg("C16", "C16.R4", "E1", "a ring of reference rows is only rotated: rows never duplicated, copied over or handed out", 1, ruleRingRows)
+	reg("C16", "C16.R7", "E6", "the shares of a limit distribution are computed from the limit they are attached to", 2, ruleSharesOfOwnLimit)
 }
 
 func isRedisFn(fn *ssa.Function) bool {
@@ -686,4 +687,100 @@ func ruleRuleKeysDistinct(c *Ctx, r *Rule) {
 		r.Ob(kind != "", fmt.Sprintf("%s|newRule#%d|own-number", c.fnName(ci.Parent()), idx+cnt), ci.Pos(), "a rule's key prefix is its position among the configured rules, the default rule's is their count (so no two rules can share limiters): "+c.path(a))
 	}
 	r.Ob(idx >= 1 && cnt == 1, "plugin/action/throttle|rule-numbering", nr.Pos(), fmt.Sprintf("configured rules numbered by position (%d site) and exactly one default rule numbered by their count (%d)", idx, cnt))
+}
+
+// ruleSharesOfOwnLimit: a limit distribution turns ratios into absolute shares of a TOTAL
+// (share = round(ratio * total)). The shares are only meaningful together with the limit they were
+// computed from: wherever a limit and a distribution are put together (complexLimit), the total handed
+// to the share computation is that very limit. Shares computed from another limit (e.g. the plugin's
+// default limit for a rule with its own limit) let a rule pass more or fewer events than its limit.
+func ruleSharesOfOwnLimit(c *Ctx, r *Rule) {
+	const thrPkg = modulePath + "/plugin/action/throttle"
+	cl := c.Named("plugin/action/throttle", "complexLimit")
+	if cl == nil {
+		r.Unresolved("throttle.complexLimit")
+		return
+	}
+	type pair struct {
+		value, distr ssa.Value
+		pos          token.Pos
+		fn           *ssa.Function
+	}
+	byBase := map[ssa.Value]*pair{}
+	var order []ssa.Value
+	for _, fn := range c.ModFuncs {
+		if c.pkgOf(fn) != "plugin/action/throttle" {
+			continue
+		}
+		for _, b := range fn.Blocks {
+			for _, in := range b.Instrs {
+				st, ok := in.(*ssa.Store)
+				if !ok {
+					continue
+				}
+				o, f, base, ok := fieldOf(st.Addr)
+				if !ok || o != cl {
+					continue
+				}
+				p := byBase[base]
+				if p == nil {
+					p = &pair{pos: st.Pos(), fn: fn}
+					byBase[base] = p
+					order = append(order, base)
+				}
+				switch f {
+				case "value":
+					p.value = st.Val
+				case "distributions":
+					p.distr = st.Val
+				}
+			}
+		}
+	}
+	n := 0
+	for _, base := range order {
+		p := byBase[base]
+		if p.value == nil || p.distr == nil {
+			continue
+		}
+		// the distribution comes from a call with an integer total
+		var call *ssa.Call
+		for _, leaf := range phiLeaves(stripConv(p.distr)) {
+			if e, ok := leaf.(*ssa.Extract); ok {
+				if cc, ok := e.Tuple.(*ssa.Call); ok {
+					call = cc
+				}
+			}
+			if cc, ok := leaf.(*ssa.Call); ok {
+				call = cc
+			}
+			if u, ok := leaf.(*ssa.UnOp); ok && u.Op == token.MUL {
+				if cv := cellValue(u.X); cv != nil {
+					if e, ok := cv.(*ssa.Extract); ok {
+						if cc, ok := e.Tuple.(*ssa.Call); ok {
+							call = cc
+						}
+					}
+				}
+			}
+		}
+		if call == nil {
+			continue
+		}
+		var total ssa.Value
+		for _, a := range call.Call.Args {
+			if isIntegerType(a.Type()) {
+				total = a
+			}
+		}
+		if total == nil {
+			continue
+		}
+		n++
+		r.Inst(1)
+		same := c.path(stripConv(total)) == c.path(stripConv(p.value))
+		r.Ob(same, fmt.Sprintf("%s|complexLimit#%d|shares-of-its-limit", c.fnName(p.fn), n), p.pos,
+			"the shares of a limit distribution are computed from the limit they are attached to (limit "+c.path(stripConv(p.value))+", shares computed from "+c.path(stripConv(total))+")")
+	}
+	r.Ob(n >= 2, "throttle|limit-with-distribution", token.NoPos, fmt.Sprintf("%d places where a limit and its distribution are put together", n))
 }
